@@ -3,7 +3,7 @@
 # Confirms a sub-agent's candidate in its scratch worktree /tmp/seed/<ID>:
 #  (a) the 150 existing tests pass with the patch, (b) the demo fails with it, (c) the demo passes without it.
 ID=$1; X=$2
-W=/tmp/seed/$ID; O=/tmp/seed/out/$ID
+SR=${SEEDROOT:-/tmp/seed}; W=$SR/$ID; O=$SR/out/$ID
 cd $W || exit 2
 git checkout -q -- src 2>/dev/null; rm -f tests/seeded_demo.rs
 if ! git apply --check $O/patch$X.diff 2>/dev/null; then echo "$ID$X: patch does not apply"; exit 1; fi
